@@ -149,6 +149,7 @@ func (srv *Server) Serve() error {
 			//TODO: Return a shutdown error if shutdown has been requested
 			return err
 		}
+		verifYield("srv.accept.beforeAdd", conn)
 		srv.shutdownLock.Lock()
 		if srv.shuttingDown {
 			// Accepted concurrently with Shutdown: it must not be served (Shutdown may already be waiting).
@@ -248,6 +249,7 @@ func (srv *Server) handleConn(conn net.Conn) {
 		// 	}
 		// }()
 		resp := srv.handleRequest(ctx, msg)
+		verifYield("srv.beforeSend", stream)
 		if ctx.Err() != nil {
 			logger.Warn("Request processing aborted", "err", ctx.Err())
 			break
